@@ -226,7 +226,7 @@ def shard(items, n):
     return [items[i::n] for i in range(n)]
 
 
-def replay_and_judge(name, histories, driver, trace_spec, shards=8, harness_extra=()):
+def replay_and_judge(name, histories, driver, trace_spec, shards=8, harness_extra=(), keep_traces=False):
     """histories: list of dicts (each gets an 'h'). Returns (verdicts list, stats dict, records)."""
     wd = workdir(name)
     if isinstance(histories, Hists):
@@ -251,7 +251,7 @@ def replay_and_judge(name, histories, driver, trace_spec, shards=8, harness_extr
         tr = os.path.join(d, "trace.ndjson")
         run_harness(driver, inp, tr, harness_extra)
         v = run_monitor(trace_spec, tr, d)
-        if nchunks > shards:          # many chunks: the traces are large, keep only what a failure needs
+        if nchunks > shards and not keep_traces:          # many chunks: the traces are large, keep only what a failure needs
             for f in (tr, inp):
                 try:
                     os.remove(f)
